@@ -95,6 +95,8 @@ pub struct DepthFirstSearch {
     executor: RuleExecutor,
     max_solutions: usize,
     solutions: Vec<Solution>,
+    /// Facts as they were when the first solution was found (kept while more are searched for)
+    first_solution_facts: Option<crate::engine::facts::FactsSnapshot>,
     proof_graph: Option<SharedProofGraph>,
 }
 
@@ -108,6 +110,7 @@ impl DepthFirstSearch {
             executor: RuleExecutor::new_with_inserter(kb, None),
             max_solutions: 1,
             solutions: Vec::new(),
+            first_solution_facts: None,
             proof_graph: None,
         }
     }
@@ -177,6 +180,7 @@ impl DepthFirstSearch {
             executor: RuleExecutor::new_with_inserter(kb, inserter),
             max_solutions: 1,
             solutions: Vec::new(),
+            first_solution_facts: None,
             proof_graph,
         }
     }
@@ -191,6 +195,7 @@ impl DepthFirstSearch {
         self.goals_explored = 0;
         self.path.clear();
         self.solutions.clear();
+        self.first_solution_facts = None;
 
         let success = self.search_recursive_with_execution(goal, facts, kb, 0);
 
@@ -300,7 +305,11 @@ impl DepthFirstSearch {
                             return true;
                         }
 
-                        // Otherwise (max_solutions > 1 and not enough yet), rollback and continue
+                        // Otherwise (max_solutions > 1 and not enough yet), rollback and continue;
+                        // remember the facts of the first solution in case no further one is found
+                        if self.first_solution_facts.is_none() {
+                            self.first_solution_facts = Some(facts.snapshot());
+                        }
                         facts.rollback_undo_frame();
                         self.path.pop();
                         continue;
@@ -337,6 +346,9 @@ impl DepthFirstSearch {
                                     }
 
                                     // Otherwise, rollback and continue searching
+                                    if self.first_solution_facts.is_none() {
+                                        self.first_solution_facts = Some(facts.snapshot());
+                                    }
                                     facts.rollback_undo_frame();
                                     self.path.pop();
                                     continue;
@@ -387,6 +399,11 @@ impl DepthFirstSearch {
         // If we found at least one solution (even if less than max_solutions), consider it proven.
         // Solutions belong to the root goal: a proof of some sub-goal says nothing about this goal.
         if depth == 0 && !self.solutions.is_empty() {
+            // Every solution found was rolled back to look for more: hand back the
+            // facts of the first one, so that the goal holds in the facts returned
+            if let Some(snapshot) = self.first_solution_facts.take() {
+                facts.restore(snapshot);
+            }
             goal.status = GoalStatus::Proven;
             // For negated goals, finding a proof means negation fails
             return !goal.is_negated;
